@@ -237,8 +237,10 @@ def run(ctx):
         for x in children:
             dm = max(dm, np.max(np.abs(kin.mass2(sub_p(x)) - ms[x] ** 2)) / ms[topP][0] ** 2)
         dm = max(dm, np.max(np.abs(tot[:, 1:])) / ms[topP][0], np.max(np.abs(tot[:, 0] - ms[topP])) / ms[topP][0])
-        ctx.dev("built masses", dm, 1e-10)
-        ctx.check("built momenta reproduce input masses", okm and dm < 1e-10, lambda: dict(desc, dev=dm), mechanism="build_data masses")
+        # m^2 of a massless or light particle built inside a fast sub-system is E^2 - p^2 of numbers ~gamma*m_parent: 1.3e-10 was observed once
+        # in 14000 thorough cases (two massless daughters of a light node); realistic breaks are >= 1e-2
+        ctx.dev("built masses", dm, 1e-9)
+        ctx.check("built momenta reproduce input masses", okm and dm < 1e-9, lambda: dict(desc, dev=dm), mechanism="build_data masses")
         # (b) round trip.  The angles are measured in rest frames reached by boosts whose Lorentz factor is E/m of the
         # intermediate state; the rounding of 1-beta^2 and of p-beta*E costs eps*gamma^2, so the tolerance is per event
         # 1e-8 + 256*eps*gamma^2 with gamma the largest lab-frame E/m over the intermediate states of that event.
